@@ -102,7 +102,12 @@ JudgePrune(B) ==
                    [] B.pred = "bigval" -> e[k][2].v > 1
                    [] B.pred = "evenpos" -> (CHOOSE j \in 1..Len(pres) : pres[j] = k) % 2 = 1     \* enumeration index (0-based) even
                    [] OTHER -> TRUE
-      idx == SelectSeq(pres, keep)
+      \* on a rank declared uncompressed the predicate is shown every coordinate of the active range (position = offset into it, a default standing in for
+      \* an absent one); what survives into the result are the stored non-default elements it accepted
+      keepU(k) == LET c == e[k][1]  off == c - ActLo(B)
+                  IN /\ ~IsDefaultP(e[k][2], B.dflt) /\ c >= ActLo(B) /\ c < ActHi(B)
+                     /\ CASE B.pred = "evencoord" -> c % 2 = 0 [] B.pred = "bigval" -> e[k][2].v > 1 [] B.pred = "evenpos" -> off % 2 = 0 [] OTHER -> TRUE
+      idx == IF B.fmt = "U" THEN SelectSeq([k \in 1..Len(e) |-> k], keepU) ELSE SelectSeq(pres, keep)
       ok(ys) == YieldsAreElems(ys, e, idx)
   IN Fails(<<
        <<"P:C07:prune", ok(B.ys)>>,
